@@ -103,6 +103,33 @@ def check_big(rep, tier, rng):
     rep.cov.setdefault("input_distribution", {})["crc_over_4GiB"] = len(sizes)
 
 
+def check_sizes(rep, tier, rng, drv):
+    """Lengths at which a size-dependent path could switch (powers of two +-1 up to 4 MiB / 64 MiB, multiples of
+    4096 and 65536, random large): carquet one-shot and update chain vs zlib, contents generated in the driver."""
+    lines = []
+    kmax = 22 if tier == "quick" else 26
+    for k in range(9, kmax + 1):
+        for d in (-1, 0, 1):
+            n = (1 << k) + d
+            lines.append("crcgen %d %d %d %d" % (n, rng.randrange(1, 1 << 31), rng.choice([0, 0, 1, 3, 7, 8, 13]),
+                                                 rng.choice([0, n // 2, (1 << (k - 1)), n - 1, rng.randrange(0, n + 1)])))
+    for _ in range(30 if tier == "quick" else 200):
+        n = rng.choice([4096, 65536, 32768, 1000]) * rng.randrange(1, 40) + rng.choice([0, 0, 1, -1, 7])
+        lines.append("crcgen %d %d %d %d" % (n, rng.randrange(1, 1 << 31), rng.randrange(16), rng.randrange(0, n + 1)))
+    impl, p1 = run_sharded(drv, lines)
+    for pr in p1:
+        rep.violation(f"implementation driver died (rc={pr[1]}): {pr[2][-600:]}", {"case": pr[3]}, key=None)
+    for li, a in zip(lines, impl):
+        rep.count(li)
+        t = a.split()
+        if len(t) != 4 or t[0] != "OK":
+            rep.tie_broken("crcgen could not run: " + a[:200], li)
+        elif not (t[1] == t[2] == t[3]):
+            rep.violation("CRC of a %s-byte buffer: carquet one-shot %s, zlib crc32 (IEEE 802.3) %s, carquet update chain %s"
+                          % (li.split()[1], t[1], t[2], t[3]), {"case": li, "impl": a})
+    rep.cov.setdefault("input_distribution", {})["crc_size_thresholds"] = len(lines)
+
+
 def run(tier):
     rep = Report(PID, tier)
     rng = random.Random(vlib.SEED * 7919 + 14)
@@ -113,7 +140,8 @@ def run(tier):
     ]
     rep.cov["rule"] = ("every length 0..600 x alignments (quick: 2 per length, thorough: all 16) with random contents, "
                        "structured contents (zeros, ones, one set bit), long random inputs, random two-way splits for update; "
-                       "non-trivial = non-empty input; distinct by full case text")
+                       "lengths 2^k-1, 2^k, 2^k+1 for k = 9..22 (thorough ..26) and multiples of 4096/32768/65536 with driver-generated contents "
+                       "(one-shot and update chain vs zlib), one buffer above 4 GiB; non-trivial = non-empty input; distinct by full case text")
     try:
         drv = build_driver("h_util", libs=["-lxxhash"])
         run_ = build_runner("util")
@@ -121,6 +149,7 @@ def run(tier):
         rep.tie_broken("harness does not build against the current tree: " + str(e)[:500])
         return rep.finish()
     check_pure(rep, tier, rng, drv, run_)
+    check_sizes(rep, tier, rng, drv)
     check_big(rep, tier, rng)
     try:
         import c14_file
